@@ -28,7 +28,7 @@ THEOREMS = [
     "exec_refines_spec_rowpath", "exec_refines_spec_rowpath_sum_partial", "exec_refines_spec_rowpath_sum_unsound",
     "exec_refines_spec_chunkpath_sum_partial", "exec_refines_spec_chunkpath_sum_unsound",
     "exec_refines_spec_chunkpath_sum_raw_unsound", "exec_refines_spec_count_distinct_unsound",
-    "exec_refines_spec_hashjoin_null_key_unsound", "exec_refines_spec_hashjoin_int_width_unsound",
+    "exec_refines_spec_hashjoin", "exec_refines_spec_hashjoin_null_key_regression", "exec_refines_spec_hashjoin_int_width_unsound",
     # shared with C11 (imported module RlModel.Thm.C11 is audited by ./check C11)
 ]
 
